@@ -17,6 +17,7 @@ R3.5  recursion over field types: every field of every dataclass gets its nested
 from __future__ import annotations
 
 import ast
+import copy
 
 from rules import _converter as cv
 from sa.cfg import CFG
@@ -99,7 +100,19 @@ def run(repo: Repo, rep: Report, tier: str) -> None:
         for c in calls_in(lp):
             if isinstance(c.func, ast.Attribute) and c.func.attr == "write_line" and c.args:
                 texts.append(full(c.args[0]))
-                seq = [("api" if RL.root(n) == api else "py") for n in names_in(RL.inline(c.args[0], stop=(api, py))) if RL.root(n) in (api, py)]
+                # locals of the loop body (`api_literal = json.dumps(api_field)`): names assigned once inside this loop are written out
+                defs: dict = {}
+                for st in ast.walk(lp):
+                    if isinstance(st, ast.Assign) and len(st.targets) == 1 and isinstance(st.targets[0], ast.Name):
+                        defs.setdefault(st.targets[0].id, []).append(st.value)
+                once = {k: v[0] for k, v in defs.items() if len(v) == 1 and k not in (api, py) and not any(isinstance(x, ast.Name) and x.id in defs for x in ast.walk(v[0]))}
+
+                class _Sub(ast.NodeTransformer):
+                    def visit_Name(self, node):  # noqa: N802
+                        return self.visit(copy.deepcopy(once[node.id])) if node.id in once and isinstance(node.ctx, ast.Load) else node
+
+                arg = _Sub().visit(copy.deepcopy(c.args[0])) if once else c.args[0]
+                seq = [("api" if RL.root(n) == api else "py") for n in names_in(RL.inline(arg, stop=(api, py))) if RL.root(n) in (api, py)]
                 orders.append(seq)
     sub = f"{rd.module.relpath}:render_dataclass Meta key maps"
     # one line maps api->python, the other python->api, both from the same pairs
